@@ -249,7 +249,7 @@ def discharge(prelude: List[Any], obligations: List[Any], timeout: float = 10.0,
                     r.smt2_path = pth
                     break
     stubborn = [(idx, r, ob) for idx, r, ob in remaining if r.status not in ("unsat", "sat")]
-    if stubborn and drop_portfolio:
+    if stubborn and drop_portfolio and os.environ.get("PYVC_NO_DROP") != "1":
         variants = []
         for idx, r, ob in stubborn:
             pre = prelude.relevant_prelude(list(ob.axioms) + list(ob.pc) + [ob.goal]) \
